@@ -182,25 +182,31 @@ def solidAngle (R0 R1 R2 : V3 α) (r0 r1 r2 : α) : α :=
   if lt (n 62831853 / n 10000000) (abs res) then n 0 else res
 
 /-- the edge integral `I` of `triangle_Bfield` for one edge (`R` = start vertex − observer,
-`L` = edge vector), including the switch to the edge-extension formula when the observer is
-closer than `1e-12·l` (relative to the edge length) to the edge's extension -/
-def triEdgeI (R L : V3 α) : α :=
-  let r2 := V3.dot R R
-  let r := sqrt r2
+`Rn` = end vertex − observer, `L` = edge vector).  `a`, `c` are the components of `R`, `Rn` along
+the edge, `rho2` the squared distance of the observer from the line through the edge (cross product
+with the nearer end).  `I = 1/l·log((rn + c)/(r + a))`, where every sum that cancels is replaced
+through `(r + a)(r - a) = rho2 = (rn + c)(rn - c)`: behind the start (`a ≥ 0`) `(rn + c)/(r + a)`,
+beyond the end (`c < 0`) `(r - a)/(rn - c)`, alongside the edge `(rn + c)(r - a)/rho2`; for observers
+that cannot be told from the edge in double precision (`rho2 ≤ 1e-30·l2` alongside, `a < 0 < c`) the
+finite on-edge value `log(-a/c)/l` is returned -/
+def triEdgeI (R Rn L : V3 α) : α :=
+  let r := sqrt (V3.dot R R)
+  let rn := sqrt (V3.dot Rn Rn)
   let l2 := V3.dot L L
   let l := sqrt l2
-  let b := V3.dot R L
-  let bl := b / l
-  let ind := abs (r + bl)
-  if lt (n 1 / n 1000000000000 * l) ind then
-    n 1 / l * log ((sqrt (l2 + n 2 * b + r2) + l + bl) / ind)
-  else
-    -(n 1 / l) * log (abs (l - r) / r)
+  let a := V3.dot R L / l
+  let c := V3.dot Rn L / l
+  let X := V3.cross (if lt rn r then Rn else R) L
+  let rho2 := V3.dot X X / l2
+  let quot := if le (n 0) a then (rn + c) / (r + a)
+    else if lt c (n 0) then (r - a) / (rn - c) else (rn + c) * (r - a) / rho2
+  log (if le rho2 (n 1 / n 1000000000000000000000000000000 * l2) && lt a (n 0) && lt (n 0) c then -a / c else quot) / l
 
 /-- `triangle_Bfield` for one row: field of a homogeneously charged triangle with surface charge
-`σ = n·J` (Guptasarma 1999) -/
+`σ = n·J` (Guptasarma 1999); a triangle without area (`|n| == 0`, collinear vertices) gives 0 -/
 def triangleB (v0 v1 v2 pol obs : V3 α) : V3 α :=
   let nn := V3.cross (v1 - v0) (v2 - v0)
+  if eq0 (norm nn) then zero3 else
   let nv := vd nn (norm nn)
   let sigma := V3.dot nv pol
   let R0 := v0 - obs
@@ -209,7 +215,7 @@ def triangleB (v0 v1 v2 pol obs : V3 α) : V3 α :=
   let L0 := v1 - v0
   let L1 := v2 - v1
   let L2 := v0 - v2
-  let PQR := vs (triEdgeI R0 L0) L0 + vs (triEdgeI R1 L1) L1 + vs (triEdgeI R2 L2) L2
+  let PQR := vs (triEdgeI R0 R1 L0) L0 + vs (triEdgeI R1 R2 L1) L1 + vs (triEdgeI R2 R0 L2) L2
   let sa := solidAngle R0 R1 R2 (norm R0) (norm R1) (norm R2)
   vd (vd (vs sigma (vs sa nv - V3.cross nv PQR)) pi) (n 4)
 
